@@ -721,10 +721,13 @@ func (g *graph) compile(ctx context.Context, opt *graphCompileOptions) (*composa
 			postProcessor: node.nodeInfo.postProcessor,
 		}
 		if node.executorMeta.component == ComponentOfPassthrough {
-			// state handlers of a passthrough node are declared on `any`, so they hand on a stream of
-			// `any` chunks: restore the chunk type inferred for the node, which its successors rely on.
-			chCall.preProcessor = restoreStreamChunkType(chCall.preProcessor, node.getGenericHelper())
-			chCall.postProcessor = restoreStreamChunkType(chCall.postProcessor, node.getGenericHelper())
+			// state handlers of a passthrough node are declared on `any`: check what they hand on against
+			// the type inferred for the node (its input type after the pre handler, its output type after
+			// the post handler) and, in stream form, restore that chunk type, which the successors rely on.
+			if gh := node.getGenericHelper(); gh != nil {
+				chCall.preProcessor = restoreHandlerOutputType(chCall.preProcessor, gh.inputConverter)
+				chCall.postProcessor = restoreHandlerOutputType(chCall.postProcessor, gh.outputConverter)
+			}
 		}
 
 		branches := g.branches[name]
@@ -864,17 +867,24 @@ func (g *graph) compile(ctx context.Context, opt *graphCompileOptions) (*composa
 	return r.toComposableRunnable(), nil
 }
 
-func restoreStreamChunkType(processor *composableRunnable, gh *genericHelper) *composableRunnable {
-	if processor == nil || gh == nil || gh.outputConverter.transform == nil {
+func restoreHandlerOutputType(processor *composableRunnable, converter handlerPair) *composableRunnable {
+	if processor == nil || converter.transform == nil || converter.invoke == nil {
 		return processor
 	}
 	wrapper := *processor
+	wrapper.i = func(ctx context.Context, input any, opts ...any) (any, error) {
+		out, err := processor.i(ctx, input, opts...)
+		if err != nil {
+			return nil, err
+		}
+		return converter.invoke(out)
+	}
 	wrapper.t = func(ctx context.Context, input streamReader, opts ...any) (streamReader, error) {
 		out, err := processor.t(ctx, input, opts...)
 		if err != nil {
 			return nil, err
 		}
-		return gh.outputConverter.transform(out), nil
+		return converter.transform(out), nil
 	}
 	return &wrapper
 }
